@@ -35,6 +35,10 @@ CLAIMED = {
   "Contract proof over the real SSA: scheme (only when set), method list (empty = any), host (decided by the typed matcher on the request host) and composite (conjunction in order, via a ghost log of member calls) matchers against their specifications; the host condition is one any-of matcher over all listed expressions; glob expressions are compiled once per matcher with the separator of their use; the exact matcher is equality; path_params see the decoded segment per encoded-slash setting (shared with C08); captured values are decoded by unescape.",
   "Not covered: which keys/values the radix tree hands to the matcher (free-wildcard captures - candidate finding, tree lookups not under contract yet), createMethodMatcher's ALL/negation set algebra, glob/regex engines (external).",
   "contract-based deductive verification (govc VC generation over go/ssa, z3/cvc5)", "DESIGN.md §6 C03"),
+ "C09": ("proof",
+  "Contract proof over the real SSA: the trusted-proxy middleware calls the trust decision once; for an untrusted peer it deletes every header of the list (proved to be exactly the seven of the property by a contract on the package initialiser) from the request before the next handler is invoked (cut-point assertion at that call), for a trusted peer it edits nothing; the trust decision is true iff some listed entry contains the peer address (single addresses by equality); list entries are parsed as written (CIDR notation by ParseCIDR, others by ParseIP - cut-point assertions on the arguments); extractURL/extractMethod take each component from its own forwarded header when present and from the actual request otherwise (host and scheme do not depend on X-Forwarded-Uri).",
+  "Not covered: requestClientIPs (Forwarded / X-Forwarded-For parsing), the forwarded headers the proxy writes itself (C15), canonicalisation of header names by net/http (assumed), net.ParseIP/ParseCIDR/IP.Equal semantics (trusted). The lemma 'deleted header => Header.Get returns "" => actual request is used' is pen-and-paper over the two contracts and the net/http spec.",
+  "contract-based deductive verification (govc VC generation over go/ssa, z3/cvc5)", "DESIGN.md §6 C09"),
 }
 NOT_APPLICABLE = {
  "C20": "no contract within reach expresses or decides it: the behaviour lives in reflection-driven third-party code (koanf, mapstructure, yaml, jsonschema) and recursive any-typed merges; see DESIGN.md §6 C20",
